@@ -29,6 +29,15 @@ THEOREMS = [
     "Typedpy.C16.name_clash_counterexample",
     "Typedpy.C16.stub_text_example",
     "Typedpy.C16.parse_rejects_examples",
+    "Typedpy.C16.stubD_names_agree_iff",
+    "Typedpy.C16.stubD_required_agree",
+    "Typedpy.C16.stubD_kw_iff",
+    "Typedpy.C16.stubD_sigkw_iff",
+    "Typedpy.C16.stubD_sigkw_is_define",
+    "Typedpy.C16.stubD_mandatory_first",
+    "Typedpy.C16.stubD_init_text_parses",
+    "Typedpy.C16.stubD_diamond_example",
+    "Typedpy.C16.diamond_names_counterexample",
 ]
 RULE = ("generated modules: 2-7 Structure classes (annotation and assignment style; inheritance from 1-2 earlier "
         "classes, Partial/Omit/Pick/Extend/AllFieldsRequired bases, ImmutableStructure; _required/_optional/"
